@@ -189,25 +189,21 @@ def r4(ctx):
         short_name = fpath.split("::")[1]
         trav = None
         for x in walk(fn["body"], into_closures=False):
-            if x.get("k") == "mcall" and x["name"] == "for_each":
-                chain = []
-                r = strip(x["recv"])
-                while r.get("k") == "mcall":
-                    chain.append(r["name"])
-                    r = strip(r["recv"])
-                if r.get("k") == "field" and r["f"] == "layers":
-                    trav = (x, list(reversed(chain)))
+            t_ = e4.traversal(x)
+            if t_ is not None and t_["field"] == "layers" and any(cal.endswith("::backward") for _, cal in calls(t_["body"])):
+                trav = t_
         if trav is None:
-            raise Unestablished("no traversal of self.layers in %s" % fpath, c.loc(fn))
-        x, chain = trav
+            raise Unestablished("no traversal of self.layers calling the layers' backward in %s" % fpath, c.loc(fn))
+        x, chain = trav["node"], trav["methods"]
         ctx.check("R01.4", short_name + ":reverse-walk", chain == ["iter", "rev", "enumerate"], "layer-walk:" + ".".join(chain), c.loc(fn, x), "layers.iter().rev().enumerate()")
-        cl = strip(x["args"][0])
+        cl = {"body": trav["body"], "params": [trav["pat"]]}
         pb = pat_binds(cl["params"][0])
         ih, lh = pb[0][1], pb[1][1]
         body = top_stmts_of(cl["body"])
         from ..hir import let_table, cpretty, resolve
-        TT = let_table(cl["body"])
-        env = {ih: Rat.atom("i")}
+        TT = let_table(fn["body"])
+        from .. import arms as _arms
+        env = _arms.full_env(c, fn, {ih: Rat.atom("i")})
         lets = {}
         for s in body:
             if s.get("k") == "let" and s["pat"].get("k") == "bind" and s["init"] is not None:
@@ -320,6 +316,8 @@ def r5(ctx):
         if b.get("k") == "match" and cpretty(b["scrut"], T) == "self.bias":
             arms_ = {e4.arm_variant(a_)[0].split("::")[-1]: cpretty(a_["body"], T) for a_ in b["arms"]}
             okb = arms_.get("Some", "").endswith("Some(%s.clone())" % dname) and arms_.get("None", "").endswith("None")
+        elif b.get("k") == "if" and cpretty(b["c"], T) == "self.bias.is_some()" and b["el"] is not None:
+            okb = cpretty(b["th"], T).endswith("Some(%s.clone())" % dname) and cpretty(b["el"], T).endswith("None")
         elif b.get("k") == "mcall" and b["name"] == "map" and cpretty(b["recv"], T) in ("self.bias.as_ref()", "self.bias"):
             cl = strip(b["args"][0])
             okb = cl.get("k") == "closure" and cpretty(cl["body"], T) == "%s.clone()" % dname
